@@ -5,6 +5,7 @@ package main
 
 import (
 	"fmt"
+	"os"
 	"go/types"
 	"math/big"
 	"strings"
@@ -320,6 +321,17 @@ func (in *Interp) fork(conds []*Term) int {
 			node.kids[i] = &dnode{parent: node}
 		}
 		in.stats.Forks++
+		if traceForks > 0 {
+			traceForks--
+			fmt.Fprintf(os.Stderr, "FORK in %s depth=%d:", c.fn, len(c.pc))
+			for _, i := range alive {
+				fmt.Fprintf(os.Stderr, " [%s]", conds[i])
+			}
+			if len(in.callStack) > 0 {
+				fmt.Fprintf(os.Stderr, " @ %s", in.callStack[len(in.callStack)-1])
+			}
+			fmt.Fprintln(os.Stderr)
+		}
 	}
 	for i, k := range node.kids {
 		if k != nil && !k.done {
@@ -707,3 +719,9 @@ func collectLeaves(n *dnode, f func(*dnode)) {
 		}
 	}
 }
+
+var traceForks = func() int {
+	n := 0
+	fmt.Sscan(os.Getenv("VX_TRACEFORKS"), &n)
+	return n
+}()
